@@ -125,21 +125,32 @@ namespace sw { namespace universal {
 		if (a < 0) std::cout << "sqrt arg is negative: " << a << std::endl;
 		if (a < 0) throw fixpnt_arithmetic_exception("argument to sqrt is negative");
 		using Fixed = fixpnt<nbits, rbits, arithmetic, bt>;
-		Fixed eps{ std::numeric_limits<Fixed>::epsilon() };
-		Fixed y(a);
-		Fixed x(a);
-		x >>= 1; // divide by 2
-		Fixed diff = (x * x - y);
-		int iterations = 0;
-		while (sw::universal::abs(diff) > eps) {
-			x = (x + y);
-			x >>= 1;
-			y = a / x;
-			diff = x - y;
-//			std::cout << " x: " << x << " y: " << y << " diff " << diff << '\n';
-			if (++iterations > static_cast<int>(rbits)) break;
+		// sqrt(A * 2^-rbits) = sqrt(A * 2^rbits) * 2^-rbits: digit-by-digit integer square root of N = A << rbits,
+		// rounded to nearest (the root of an integer is never exactly half way between two integers)
+		using Wide = blockbinary<2 * nbits + 4, bt>;
+		constexpr unsigned nrPairs = (nbits + rbits + 1) / 2; // N has at most nbits - 1 + rbits bits
+		Wide remainder, root, trial;
+		remainder.clear(); root.clear();
+		for (int i = static_cast<int>(nrPairs) - 1; i >= 0; --i) {
+			remainder <<= 2;
+			for (int b = 1; b >= 0; --b) { // bring down the next two bits of N: bit k of N is bit k - rbits of A
+				int k = 2 * i + b - static_cast<int>(rbits);
+				if (k >= 0 && k < static_cast<int>(nbits) - 1 && a.at(static_cast<unsigned>(k))) remainder.setbit(static_cast<unsigned>(b));
+			}
+			root <<= 1;
+			trial = root; trial <<= 1; trial.setbit(0);
+			if (remainder >= trial) {
+				remainder -= trial;
+				root.setbit(0);
+			}
 		}
-		if (iterations > static_cast<int>(rbits)) std::cerr << "sqrt(" << double(a) << ") failed to converge\n";
+		if (remainder > root) { // N - root^2 > root  <=>  sqrt(N) > root + 1/2
+			Wide one; one.clear(); one.setbit(0);
+			root += one;
+		}
+		Fixed x;
+		x.clear();
+		for (unsigned i = 0; i < nbits; ++i) x.setbit(i, root.at(i));
 		return x;
 	}
 #else
